@@ -36,3 +36,33 @@ def make_salted_async(base, salt):
         return await CURRENT.abody(base + ":" + repr(salt), {"a": a})
 
     return f
+
+
+# two lambdas written on ONE source line: inspect.getsource returns the whole line for either of them
+LAM = {"A": None, "B": None}
+LAM["A"], LAM["B"] = (lambda a: CURRENT.body("ckA", {"a": a})), (lambda a: CURRENT.body("ckB", {"a": a}))
+
+
+class Keyed:
+    """Bound methods of different instances share their source text and have no closure: the instance is the captured state."""
+
+    def __init__(self, key):
+        self.key = key
+
+    def apply(self, a):
+        return CURRENT.body(self.key, {"a": a})
+
+
+def make_method(which):
+    return Keyed("ck" + which).apply
+
+
+def _current():
+    return CURRENT
+
+
+def make_by_global_name(which):
+    """exec-built functions (no source available) that differ only in the NAME of a global they read."""
+    ns = {"_current": _current, "KEY_A": "ckA", "KEY_B": "ckB"}
+    exec(f"def f(a):\n    return _current().body(KEY_{which}, {{'a': a}})\n", ns)
+    return ns["f"]
